@@ -413,6 +413,8 @@ class Evaluator:
             if "promoted" in o:
                 return self.promoted_value(o["promoted"])
             return ("named", strip_lt(o["uneval"]))
+        if "static" in o:
+            return ("static", strip_lt(o["static"]))
         if o.get("zst"):
             ty = strip_lt(o["ty"])
             if ty == "()":
@@ -673,6 +675,8 @@ def show(e):
         return str(e[2]).lower() if e[1] == "bool" else str(e[2])
     if k == "named":
         return short(e[1])
+    if k == "static":
+        return "static " + short(e[1])
     if k == "fn":
         return "fn " + short(e[1])
     if k == "field":
